@@ -186,6 +186,22 @@ def genTitle : Gen Bytes := do
   let t ← genBytes titleAlpha n
   pure ([← pick alnums] ++ t ++ [← pick alnums])
 
+def flipCase (c : UInt8) : UInt8 :=
+  if 0x41 ≤ c && c ≤ 0x5A then c + 0x20 else if 0x61 ≤ c && c ≤ 0x7A then c - 0x20 else c
+
+def genCaseVariant : Bytes → Gen Bytes
+  | [] => pure []
+  | c :: r => do
+    let f ← chance 1 2
+    let t ← genCaseVariant r
+    pure ((if f then flipCase c else c) :: t)
+
+/-- Spelling of a link: inline, or by reference with a fresh random label. -/
+def genSpell : Gen Spell := do
+  if ← chance 3 5 then pure .inline else
+  let l ← genBytes alnums (3 + (← below 6))
+  pure (.ref l (← genCaseVariant l) (← chance 1 2))
+
 def genCode : Gen Inl := do
   let n ← below 8
   let s ← genBytes codeAlpha n
@@ -263,7 +279,7 @@ def fillInls : Nat → Bool → Bool → Bool → Bool → Option IKind → List
       | .strike => do pure (.strike (← genInls fuel inLink inBr breaks 0x7E 0x7E true))
       | .link => do
         let a ← chance 1 3
-        pure (.link (← genUrl a) (← genTitle) a (← genInls fuel true true breaks 0x5B 0x5D false))
+        pure (.link (← genUrl a) (← genTitle) a (← genSpell) (← genInls fuel true true breaks 0x5B 0x5D false))
       | .image => do
         let a ← chance 1 3
         pure (.image (← genUrl a) (← genTitle) a (← genInls fuel inLink true breaks 0x5B 0x5D false))
@@ -347,10 +363,35 @@ def genItems : Nat → Marker → Nat → Gen Items
     pure (.cons bs r)
 end
 
-def genDoc (seed size : Nat) : Doc :=
+/-- Shadowed definitions: for some used labels a later definition with another destination (it
+    must lose), and some definitions nothing refers to. -/
+def genShadow : List RefDef → Gen (List RefDef)
+  | [] => do
+    if ← chance 1 4 then
+      pure [{ label := ← genBytes alnums 4, url := ← genUrl false, title := ← genTitle, angle := false, before := false }]
+    else pure []
+  | d :: r => do
+    let rest ← genShadow r
+    if ← chance 1 3 then
+      let a ← chance 1 3
+      pure ({ label := ← genCaseVariant d.label, url := ← genUrl a, title := ← genTitle, angle := a, before := false } :: rest)
+    else pure rest
+
+def genDocTry (seed size salt : Nat) : Doc :=
   let fuel := 2 + min 6 (size / 2)
   let n := 1 + size % 4 + size / 6
-  (genBlks fuel false 0 0 .none n).run' (seedOf (seed * 64 + size)) |> Id.run |> Doc.mk
+  let g : Gen Doc := do
+    let bs ← genBlks fuel false 0 0 .none n
+    let sh ← genShadow bs.defs
+    let d : Doc := { blocks := bs, shadow := sh }
+    pure (if d.ok then d else { blocks := bs, shadow := [] })
+  g.run' (seedOf (seed * 64 + size + salt * 1000003)) |> Id.run
+
+def genDoc (seed size : Nat) : Doc :=
+  let rec go : Nat → Nat → Doc
+    | 0, _ => { blocks := .nil }
+    | k + 1, salt => let d := genDocTry seed size salt; if d.ok then d else go k (salt + 1)
+  go 5 0
 
 def handle : Handler := fun cmd args =>
   match cmd, args with
